@@ -29,7 +29,8 @@ type zz15Model struct {
 }
 
 var zz15Names = []string{"heads/a", "heads/ab", "tags/a", "remotes/o/a", "remotes/o/b", "remotes/oo/a", "remotes/o2/a"}
-var zz15Remotes = []string{"o", "oo", "o2", "x"}
+// "x%s": a remote name that must be taken literally wherever names are built with fmt
+var zz15Remotes = []string{"o", "oo", "o2", "x%s"}
 
 func zz15Val(i int) []byte { return bytes.Repeat([]byte{byte(0x10 + i)}, 16) }
 
